@@ -34,6 +34,9 @@ type Case struct {
 	// Concurrent: before the timed pattern, two different certificates are checked at the same time on one
 	// instance while the responder of the first answers slowly
 	Concurrent bool `json:"concurrent"`
+	// Outage: after the timed pattern the cached answer is left to run out, then the responder fails
+	// (http500 | garbage | stranger-signed) and the certificate is read once more
+	Outage string `json:"outage,omitempty"`
 	// AgeHours: age of thisUpdate in the response used for the white-box lifetime check (nextUpdate = now + 1 h)
 	AgeHours int `json:"age_hours"`
 }
@@ -49,6 +52,7 @@ func genCase(t *rapid.T) Case {
 		FailFirst:  rapid.IntRange(0, 3).Draw(t, "failfirst") == 0,
 		CAKey:      rapid.SampledFrom([]string{"p256a", "rsa2048a"}).Draw(t, "cakey"),
 		Concurrent: rapid.Bool().Draw(t, "concurrent"),
+		Outage:     rapid.SampledFrom([]string{"", "http500", "garbage", "stranger"}).Draw(t, "outage"),
 		AgeHours:   rapid.SampledFrom([]int{0, 1, 6, 48}).Draw(t, "age"),
 	}
 	c.Reads = rapid.IntRange(6, 14).Draw(t, "reads")
@@ -181,6 +185,27 @@ func runCase(c Case, x *ev.Ctx) error {
 		}
 		time.Sleep(period)
 	}
+	if c.Outage != "" && !lastFetchDone.IsZero() {
+		// the lifetime of whatever is cached ends; then nobody answers authentically: every instance is strict, so
+		// the certificate must be denied - a status whose lifetime is over is not an answer any more
+		if wait := time.Until(lastFetchDone.Add(D + slack + 10*time.Millisecond)); wait > 0 {
+			time.Sleep(wait)
+		}
+		switch c.Outage {
+		case "stranger":
+			ra.Set(world.OCSPAnswer{Kind: "good", Signer: "stranger"})
+		default:
+			ra.Set(world.OCSPAnswer{Kind: c.Outage})
+		}
+		for i, inst := range chk {
+			before := ra.Requests()
+			v := world.Ask(inst, chainsA)
+			if v.Kind != "error" {
+				return fmt.Errorf("the cached answer's lifetime (%v) ended %v ago and the responder now fails (%s): strict instance %d answered %v with %d new responder requests instead of denying - an expired status was served", D, time.Since(lastFetchDone.Add(D)), c.Outage, i, v, ra.Requests()-before)
+			}
+		}
+		x.Classf("outage-after-expiry=%s", c.Outage)
+	}
 	x.Classf("D=%dms/period=%d%%", c.DMillis, c.PeriodPct)
 	if stale > 0 {
 		x.Class("served-from-cache-observed")
@@ -302,7 +327,7 @@ var spec = ev.Spec[Case]{
 	ID:   "C14",
 	Gen:  genCase,
 	Run:  runCase,
-	Rule: "rapid draws an access pattern: default cache duration D in {0, 300, 400, 600 ms}, read period in {D/5, D/2, 2D}, 6..14 reads alternating over 1..2 checker instances, responder flip good->revoked after 1..3 reads, nextUpdate in {absent, already past}, optionally a first query that fails, and a twin certificate with identical subject and serial from another issuer whose name differs in CN / a DC component / an added emailAddress / RDN order (of DC components, or X.500 vs LDAP order of C, O, CN) / an additional earlier CN / the grouping of O and CN into one multi-valued RDN. Oracles: (a) a read that STARTS more than D + 60 ms after the answer now cached was obtained must ask the responder again (upper bound only: slowness adds time and can never cause a failure); a read that asked the responder returns the responder's current status; (b) the twin triggers a request to its own responder and gets its own verdict; (c) with D = 0 and no usable nextUpdate every read asks the responder; (d) after a failed query the next read asks again; (e) white-box: after an authentic answer with nextUpdate = now + 1 h and a thisUpdate 0 / 1 / 6 / 48 h old, the lifetime stored with the cache entry (the cache library's LifeSpan and / or the absolute expiry kept with the response, read through a verif export) is at most nextUpdate - now + 15 min; (f) in half of the cases two different certificates are first checked concurrently on one instance while the first responder is held, and each must afterwards get its own status. Every case is non-trivial; distinct by the full pattern.",
+	Rule: "rapid draws an access pattern: default cache duration D in {0, 300, 400, 600 ms}, read period in {D/5, D/2, 2D}, 6..14 reads alternating over 1..2 checker instances, responder flip good->revoked after 1..3 reads, nextUpdate in {absent, already past}, optionally a first query that fails, and a twin certificate with identical subject and serial from another issuer whose name differs in CN / a DC component / an added emailAddress / RDN order (of DC components, or X.500 vs LDAP order of C, O, CN) / an additional earlier CN / the grouping of O and CN into one multi-valued RDN. Oracles: (a) a read that STARTS more than D + 60 ms after the answer now cached was obtained must ask the responder again (upper bound only: slowness adds time and can never cause a failure); a read that asked the responder returns the responder's current status; (b) the twin triggers a request to its own responder and gets its own verdict; (c) with D = 0 and no usable nextUpdate every read asks the responder; (d) after a failed query the next read asks again; (e) white-box: after an authentic answer with nextUpdate = now + 1 h and a thisUpdate 0 / 1 / 6 / 48 h old, the lifetime stored with the cache entry (the cache library's LifeSpan and / or the absolute expiry kept with the response, read through a verif export) is at most nextUpdate - now + 15 min; (g) optionally, after the pattern the cached answer runs out and the responder then fails (HTTP 500, garbage, or an answer signed by a stranger): every (strict) instance must deny; (f) in half of the cases two different certificates are first checked concurrently on one instance while the first responder is held, and each must afterwards get its own status. Every case is non-trivial; distinct by the full pattern.",
 	Assumptions: []string{
 		"lifetimes of nextUpdate + 15 min cannot be waited out; the default-duration lifetime is exercised in time, the nextUpdate lifetime is read white-box from the cache library's item (skipped if the item cannot be found)",
 		"wall-clock: only lower bounds on elapsed time are used, so a slow machine cannot produce a violation",
